@@ -458,6 +458,28 @@ def chain_source(repo: Repo) -> RuleRun:
                 except NotEvaluable:
                     rejected = False  # the guard let the negative length through to the geometry
             r.check(rejected, fn, "negative length rejected before use (either face)", f"{fn.qualname} does not reject a negative length for start_face=True and start_face=False alike", fn.node, key="negative-length")
+        # every chain() leaves the source through the selected face: from the START face that is against the source's own
+        # direction, so exactly the start branch reverses the direction quantity it hands on (the length or the normal)
+        def reversals(stmts):
+            out = []
+            for st_ in stmts:
+                for n_ in ast.walk(st_):
+                    if isinstance(n_, ast.UnaryOp) and isinstance(n_.op, ast.USub) and isinstance(n_.operand, (ast.Name, ast.Attribute)):
+                        nm_ = n_.operand.id if isinstance(n_.operand, ast.Name) else n_.operand.attr
+                        if nm_ in ("length", "normal"):
+                            out.append(nm_)
+            return out
+
+        rev_t, rev_f = reversals(br_true), reversals(br_false)
+        r.check(
+            len(rev_t) == 1 and not rev_f,
+            fn,
+            f"direction reversed ({rev_t[0] if rev_t else '-'}) only when chaining from the start face",
+            f"{fn.qualname}: the start_face branch reverses {rev_t or 'nothing'}, the other branch {rev_f or 'nothing'}: a shape chained to the START face runs against the source's direction, so the length or the normal "
+            "handed to the constructor must be reversed there (and only there) - otherwise the new blocks are inside-out (negative corner Jacobians)",
+            br,
+            key="direction-reversal",
+        )
         if qn.endswith("Hemisphere.chain"):
             neg_t = any("-source.sketch_1.normal" in ast.unparse(s).replace(" ", "") or "normal=-" in ast.unparse(s).replace(" ", "") for s in br_true)
             neg_f = any("=-" in ast.unparse(s).replace(" ", "") for s in br_false)
